@@ -56,7 +56,9 @@
 //! for the first time, and handed to the model as an observed choice on that `poll` line: `@dec=e` | `@dec=l<ms>` |
 //! `@dec=p` (together with the exact thresholds of the configured rates, `@eT @lT`). The model checks the decision
 //! against the boundary clauses (rate 0 => never, rate 1 => always, latency within the bounds) and predicts what the
-//! request must then do. The log contains observables only: inner calls (with their virtual instants) and results.
+//! request must then do. The log contains observables only: inner calls (with their virtual instants), results, and — printed
+//! by the harness itself — `first_poll <c> svc=<k>` when the call future of request c is polled for the first time
+//! (the instant its decision is taken: the injected latency is the distance from this line to the `inner_call` line).
 //!
 //! Determinism is decided on this side, without the model, by running the same seed and the same order of requests
 //! twice inside the case:
@@ -726,6 +728,10 @@ impl Future for Pair {
         let this = &mut *self;
         if this.first {
             this.first = false;
+            // the instant the decision of this request is taken, in the compared log: injected latency = instant of
+            // the `inner_call` line (or of the injected error) - instant of this line. Printed by the harness itself,
+            // before the layer's future is polled: it depends on nothing the layer reports.
+            log(format!("first_poll {} svc={}", this.c, this.svc));
             // the exact thresholds of the configured rates travel with every first poll
             obs("eT", this.et);
             obs("lT", this.lt);
